@@ -335,28 +335,33 @@ Definition spec_template (m : mode) (reg : list ie) (bytes : list byte) : option
     end
   else None.
 
-(* the data message a byte string denotes under a template state, if it denotes one *)
-Definition spec_packet_data (m : mode) (tm : tmap) (bytes : list byte)
+(* the data message a byte string denotes under a template lookup, if it denotes one *)
+Definition spec_packet_data_with (lk : N -> N -> option (list ie)) (m : mode) (bytes : list byte)
   : option (hdr * N * list (list (ie * value))) :=
   if hdr_ok bytes && negb (N.eqb (wire_setid bytes) c_entities_TemplateSetID) then
-    match tm_lookup tm (wire_obs bytes) (wire_setid bytes) with
+    match lk (wire_obs bytes) (wire_setid bytes) with
     | Some tpl =>
         option_map (fun rs => (wire_hdr bytes, wire_setid bytes, rs))
                    (spec_data (keep_of m) tpl (wire_body bytes))
     | None => None
     end
   else None.
+Definition spec_packet_data (m : mode) (tm : tmap) (bytes : list byte) :=
+  spec_packet_data_with (tm_lookup tm) m bytes.
 
-(* the message a byte string denotes under a template state; None: it denotes none (error) *)
-Definition spec_packet (m : mode) (reg : list ie) (tm : tmap) (bytes : list byte) : option msg :=
+(* the message a byte string denotes under a template lookup; None: it denotes none (error) *)
+Definition spec_packet_with (lk : N -> N -> option (list ie)) (m : mode) (reg : list ie)
+           (bytes : list byte) : option msg :=
   match spec_template m reg bytes with
   | Some (h, tid, es) => Some (TemplateMsg h tid es)
   | None =>
-      match spec_packet_data m tm bytes with
+      match spec_packet_data_with lk m bytes with
       | Some (h, tid, rs) => Some (DataMsg h tid rs)
       | None => None
       end
   end.
+Definition spec_packet (m : mode) (reg : list ie) (tm : tmap) (bytes : list byte) : option msg :=
+  spec_packet_with (tm_lookup tm) m reg bytes.
 
 (* ---- safety of a template state: what makes the per-type decoders index in range ---- *)
 Definition fixed_width (d : dtype) : option N :=
